@@ -1,0 +1,61 @@
+// Copyright 2020-2025 Buf Technologies, Inc.
+//
+// Licensed under the Apache License, Version 2.0 (the "License");
+// you may not use this file except in compliance with the License.
+// You may obtain a copy of the License at
+//
+//      http://www.apache.org/licenses/LICENSE-2.0
+//
+// Unless required by applicable law or agreed to in writing, software
+// distributed under the License is distributed on an "AS IS" BASIS,
+// WITHOUT WARRANTIES OR CONDITIONS OF ANY KIND, either express or implied.
+// See the License for the specific language governing permissions and
+// limitations under the License.
+
+//go:build verif
+package bufmodulestore
+
+// Contracts for the gocv verifier (see /verif/DESIGN.md). Comment-only. (author ca-r4h)
+//
+// C09, construction of the two stores and the layout of the module data store.
+//
+// The stores are wired to exactly the bucket / locker they are given ("It is assumed that the ModuleDataStore has complete
+// control of the bucket"); the default layout is one directory per module, the tar layout only on request.
+// (`calls option ...`: the options are function values; that an option writes only the tar flag of the store it is handed
+// is an assumption of the model; the one option constructor of the package is verified below to do exactly that.)
+//@ func newModuleDataStore(logger, bucket, locker, options) (r)
+//@   property C09
+//@   modifies heap moduleDataStore.tar
+//@   calls option modifies heap moduleDataStore.tar
+//@   ensures wired-as-given: r != nil && !old(allocated(r)) && r.bucket == bucket && r.locker == locker && r.logger == logger
+//@   ensures directory-layout-by-default: len(options) == 0 ==> !r.tar
+//@   loop 0 invariant moduleDataStore != nil && moduleDataStore.bucket == bucket && moduleDataStore.locker == locker && moduleDataStore.logger == logger && (len(options) == 0 ==> !moduleDataStore.tar)
+//@ func NewModuleDataStore(logger, bucket, locker, options) (r)
+//@   property C09
+//@   modifies heap moduleDataStore.tar
+//@   ensures wired-as-given: r != nil && typeOf(r) == typeId(*moduleDataStore) && cast(*moduleDataStore, r).bucket == bucket && cast(*moduleDataStore, r).locker == locker
+//@   ensures directory-layout-by-default: len(options) == 0 ==> !cast(*moduleDataStore, r).tar
+//@ func ModuleDataStoreWithTar() (r)
+//@   property C09
+//@   ensures r != nil
+//@   closure 0 ensures selects-tar-layout-only: moduleDataStore.tar && moduleDataStore.bucket == old(moduleDataStore.bucket) && moduleDataStore.locker == old(moduleDataStore.locker)
+//@ func newCommitStore(logger, bucket) (r)
+//@   property C09
+//@   ensures wired-as-given: r != nil && !old(allocated(r)) && r.bucket == bucket && r.logger == logger
+//@ func NewCommitStore(logger, bucket) (r)
+//@   property C09
+//@   ensures wired-as-given: r != nil && typeOf(r) == typeId(*commitStore) && cast(*commitStore, r).bucket == bucket
+//
+// Layout. "digestType/registry/owner/name/dashlessCommitID.tar": the tar path is a function of (digest type, registry,
+// owner, name, commit) of the key and of nothing else; a key whose digest cannot be produced has no path.
+// Injectivity (two different keys never share a path): lemma rh_path5-injective and rh_tar-path-injective in
+// /verif/specs/R4h.spec (over the ASSUMED behaviour of a five-element Join on clean components, axiom rh_join5).
+//@ pure func getModuleDataStoreTarPath(moduleKey) (r, err)
+//@   property C09
+//@   use rh_join5, rh_seg-tar
+//@   reveal rh_cleanKey
+//@   ensures clean-key-path: rh_cleanKey(moduleKey) ==> err == nil && r == rh_path5(first(moduleKey.Digest()).Type().String(), moduleKey.FullName().Registry(), moduleKey.FullName().Owner(), moduleKey.FullName().Name(), uuidutil.ToDashless(moduleKey.CommitID()) + ".tar")
+//@   ensures path-iff-digest: err == nil <==> second(moduleKey.Digest()) == nil
+//@   ensures error-is-the-digest-error: err == second(moduleKey.Digest())
+//@   ensures no-path-on-error: err != nil ==> r == ""
+//@   ensures function-of-key-components: err == nil ==> r == normalpath.Join(first(moduleKey.Digest()).Type().String(), moduleKey.FullName().Registry(), moduleKey.FullName().Owner(), moduleKey.FullName().Name(), uuidutil.ToDashless(moduleKey.CommitID()) + ".tar")
